@@ -104,6 +104,9 @@ def check(ctx) -> None:
     cfg = prog.func("emu_mps.mps_config.MPSConfig.check_permutable_observables")
     white = None
     for n in ast.walk(cfg.node):
+        if isinstance(n, ast.Call) and dotted(n.func) == "set" and n.args and isinstance(n.args[0], ast.Name) \
+                and n.args[0].id in util.single_assignments(cfg):
+            n = ast.Call(func=n.func, args=[util.single_assignments(cfg)[n.args[0].id]], keywords=[])
         if isinstance(n, ast.Call) and dotted(n.func) == "set" and n.args and isinstance(n.args[0], (ast.List, ast.Tuple, ast.Set)):
             vals = [x.value for x in n.args[0].elts if isinstance(x, ast.Constant)]
             if vals and all(isinstance(v, str) for v in vals):
